@@ -111,6 +111,9 @@ struct BenchSpec {
     /// `Some(t)`: only the calls whose cost offset is `t` allocate (so that any subset of the
     /// fastest / slowest / median samples can be the allocating ones); `None`: every call does.
     alloc_only: Option<u64>,
+    /// `Some((kind, base))`: an input counter (kind 0 bytes, 1 chars, 2 items) whose count differs
+    /// between samples: `base + 3 * cost offset` for the call's input.
+    vary: Option<(usize, u64)>,
     module_path: String,
     line: u32,
 }
@@ -218,7 +221,10 @@ fn parse_node(t: &mut Toks, path: &str, spec: &mut Spec, line: &mut u32) {
                 span: beh[3].parse().unwrap(),
                 counters,
                 alloc: beh[5].parse().unwrap(),
-                alloc_only: if beh.len() > 6 && beh[6].starts_with('o') { Some(beh[6][1..].parse().unwrap()) } else { None },
+                alloc_only: beh.iter().skip(6).find(|x| x.starts_with('o')).map(|x| x[1..].parse().unwrap()),
+                vary: beh.iter().skip(6).find(|x| x.starts_with('v')).map(|x| {
+                    (match &x[1..2] { "b" => 0, "c" => 1, _ => 2 }, x[2..].parse().unwrap())
+                }),
                 module_path: path.to_string(),
                 line: *line,
             });
@@ -308,6 +314,11 @@ fn cost(b: &BenchSpec, i: u64) -> u64 {
     b.lo + cost_offset(b, i)
 }
 
+/// The count the varying input counter reports for the input of call `i`.
+fn vary_count(b: &BenchSpec, base: u64, i: u64) -> u64 {
+    base + 3 * cost_offset(b, i)
+}
+
 /// Does call `i` allocate?
 fn allocates(b: &BenchSpec, i: u64) -> bool {
     b.alloc > 0 && b.alloc_only.map_or(true, |t| cost_offset(b, i) == t)
@@ -321,13 +332,24 @@ fn run_entry(k: usize, arg: Option<usize>, bencher: divan::Bencher) {
         return;
     }
     let alloc = b.alloc;
-    bencher.bench(move || {
-        let i = calls.fetch_add(1, Ordering::Relaxed);
+    let body = move |i: u64| {
         v::vclock_advance(cost(b, i));
         if allocates(b, i) {
             divan::black_box(Vec::<u8>::with_capacity(alloc));
         }
-    });
+    };
+    match b.vary {
+        None => bencher.bench(move || body(calls.fetch_add(1, Ordering::Relaxed))),
+        // the input is the call index, so the cost and the count of a sample go together
+        Some((kind, base)) => {
+            let with = bencher.with_inputs(move || calls.fetch_add(1, Ordering::Relaxed));
+            match kind {
+                0 => with.input_counter(move |&i: &u64| divan::counter::BytesCount::new(vary_count(b, base, i))).bench_values(body),
+                1 => with.input_counter(move |&i: &u64| divan::counter::CharsCount::new(vary_count(b, base, i))).bench_values(body),
+                _ => with.input_counter(move |&i: &u64| divan::counter::ItemsCount::new(vary_count(b, base, i))).bench_values(body),
+            }
+        }
+    }
 }
 
 /// Body of the macro-generated fixture benchmarks: behaves like the entry with this id in the case.
@@ -414,7 +436,9 @@ fn register(spec: &'static Spec) {
     for (k, b) in spec.benches.iter().enumerate() {
         let meta = dp::EntryMeta {
             display_name: leak(&b.name),
-            raw_name: leak(&format!("b{}", b.line)),
+            // as the macro does: the function's identifier (a benchmark function and a sibling
+            // module may share it)
+            raw_name: leak(&b.name),
             module_path: leak(&b.module_path),
             location: dp::EntryLocation { file: "spec.rs", line: b.line, col: 1 },
             bench_options: if b.sc == "-" { None } else { Some(LazyLock::new(tables::OPTS[k])) },
@@ -465,7 +489,13 @@ fn expected_cells(b: &BenchSpec, n: u64, profile: bool, binary: bool) -> String 
     } else {
         Vec::new()
     };
-    let st = v::stats_from_samples(1, &durations, &infos, &counts, [false; 4]);
+    let mut uses_input = [false; 4];
+    if let Some((kind, base)) = b.vary {
+        let idx = [0usize, 1, 3][kind];
+        counts[idx] = (0..n).map(|i| vary_count(b, base, i)).collect();
+        uses_input[idx] = true;
+    }
+    let st = v::stats_from_samples(1, &durations, &infos, &counts, uses_input);
     let set4 = |s: &v::PlainStatsSet<u128>| [s.fastest, s.slowest, s.median, s.mean];
     let t = set4(&st.time);
     let mut rows: Vec<String> = Vec::new();
